@@ -16,6 +16,7 @@ ASSUME \A n \in 1..8, k \in 0..8, m \in 0..8, j \in 0..8 :
           (k <= n /\ m <= n) => PrintT(<<"MCQH", n, k, m, j, QStr(QHyp(n, k, m, j))>>)
 ASSUME \A m \in 0..8, p \in 1..2 : PrintT(<<"MCQHarm", m, p, QStr(QHarm(m, p))>>)
 ASSUME \A b \in {QMk(2,1), QMk(-3,2), QMk(1,3)}, e \in -4..5 : PrintT(<<"MCQP", QStr(b), e, QStr(QPow(b, e))>>)
+ASSUME \A a \in Vals : PrintT(<<"MCQF", QStr(a), QStr(QFloor(a))>>)
 ASSUME PrintT(<<"MCQS", QStr(QSumSeq(<<QMk(1,2), QMk(1,3), QMk(1,6)>>)), QStr(QProdSeq(<<QMk(2,3), QMk(3,4)>>))>>)
 
 \* laws, checked by TLC in both modes
